@@ -160,6 +160,8 @@ pub enum Point {
     SyncAfterExpire,
     SyncAfterEvict,
     SyncUnlocked,
+    /// One iteration of a batch loop of the maintenance task (expiry purge, size eviction).
+    MaintenanceLoopIter,
     /// `handle_upsert`: an admission decision has been taken; victims / the
     /// candidate are about to be removed from the map.
     UpsertBeforeVictims,
